@@ -990,6 +990,9 @@ def check(run):
                 'barriers / switch intervals on the test transpiler and on api.PyToPy; allowlist cache: forced request histories over 8 related '
                 'callables (plain functions, do_not_convert / convert / functools.wraps wrappers of them, bound methods, a twin on the '
                 'same code object), all ordered related pairs + random ones, decision log incl. nested requests; '
+                'entry layer: ask / rebind in place (__defaults__, __kwdefaults__, __code__, closure cell, global) / ask again for 5 '
+                'function objects x every entry point (to_graph, reused convert wrapper, converted_call, via a converted caller), the '
+                'same object under 3 option sets, random mixes with 1-3 threads, each vs CPython now and vs the request made alone; '
                 'distinct non-trivial = distinct event traces / decision logs')
     tmp = vlib.ensure_dir(os.path.join(vlib.BUILD, 'tmp', str(os.getpid())))
     os.environ['TMPDIR'] = tmp
@@ -1008,17 +1011,21 @@ def _check(run, tmp):
     # 1. regenerate
     tie_msg = None
     prog = None
+    funnel = None
     try:
         text = generate()
         prog = _tup(c10_cache.parse_prog(text))
+        funnel = re.search(r'Definition entry_funnel : funnel := (.*?)\.\n', text).group(1)
     except c10_cache.Untranslatable as e:
         tie_msg = str(e)
         run.note(tie_msg)
     # 2. proofs
     dc_ok = False
     if tie_msg is None:
-        vlib.standard_proof_step(run, ['Cache/MachineCheck.vo', 'Cache/AllowlistCheck.vo'])
-        dc_ok = all(o.discharged() for o in run.obligations)
+        vlib.standard_proof_step(run, ['Cache/MachineCheck.vo', 'Cache/AllowlistCheck.vo', 'Cache/EntryCheck.vo'])
+        # the obligation of the entry layer (funnel_ok entry_funnel) is searched by the rebinding histories below,
+        # those of the machine by the schedule search of step 5
+        dc_ok = all(o.discharged() for o in run.obligations if o.name != 'entry_coherent')
     TT, MT = make_transpilers()
     failures = []          # (title, replay dict, classify)
 
@@ -1100,10 +1107,14 @@ def _check(run, tmp):
     failures += oracle(run, rnd, tmp, TT, MT, thorough)
     failures += nested_histories(run, rnd, tmp, thorough)
     failures += redefinition_histories(run, rnd, tmp, thorough)
+    mu_fail, mu_corr = mutation_histories(run, rnd, tmp, thorough, tie_msg is None, funnel)
+    failures += mu_fail
     al_fail, al_corr = allowlist_histories(run, rnd, tmp, thorough, tie_msg is None)
     failures += al_fail
     if al_corr and corr_bad is None:
         corr_bad = al_corr
+    if mu_corr and corr_bad is None:
+        corr_bad = mu_corr
     # 5. search, if the discipline or the tie broke
     searched = ''
     if prog is not None and not dc_ok:
@@ -1125,7 +1136,7 @@ def _check(run, tmp):
                 searched += 'did not reproduce on the real code'
     # verdict
     seen = set()
-    order = {'forced-schedule-min': -1, 'allowlist-history': 1, 'nested-history': 1, 'redefinition-history': 1, 'option-field-history': 2, 'forced-schedule': 0, 'overlap-probe': 1, 'preemption-sweep': 1, 'sequential-history': 2, 'redefinition': 2}
+    order = {'forced-schedule-min': -1, 'mutation-history': 1, 'allowlist-history': 1, 'nested-history': 1, 'redefinition-history': 1, 'option-field-history': 2, 'forced-schedule': 0, 'overlap-probe': 1, 'preemption-sweep': 1, 'sequential-history': 2, 'redefinition': 2}
     failures.sort(key=lambda f: order.get(f[1].get('kind'), 5))
     for title, rep, cls in failures:
         norm = re.sub(r'\d+', 'N', title)
@@ -1152,6 +1163,8 @@ def _check(run, tmp):
         'weakref callbacks remove a bucket only when its key code object is dead; code objects compare by value',
         'instantiate() is a function of (factory, globals, closure, defaults, kwdefaults) -- exercised by the oracle, not proved',
         'ConversionOptions eq/hash agree with the attribute tuple (C20)',
+        'entry layer: attributes of a function object are rebound between the requests on that object, not while one is in flight; '
+        'one to_graph / converted_call / wrapper call = one request reading the attributes once',
         'allowlist machine: the context-independent reasons to run a callable as-is (artifact, unsupported, allowlisted module, '
         'no source) are properties of the function object -- for a bound method, of its __func__, not of the instance it is bound to',
     ]
@@ -2245,6 +2258,601 @@ def redefinition_histories(run, rnd, tmp, thorough):
 
 
 
+MUT_SCRIPT = r'''import importlib.util, json, os, sys, threading
+from malt.impl import api
+from malt.core import converter
+F = converter.Feature
+
+POOL = """import sys
+from malt.impl import api
+G = 100
+
+
+@api.do_not_convert
+def CONV(name):
+    fr = sys._getframe()
+    while fr is not None:
+        n = fr.f_code.co_name
+        if n == 'ag__' + name:
+            return True
+        if n == name:
+            return False
+        fr = fr.f_back
+    return None
+
+
+class P(object):
+    def __eq__(self, other):
+        return False
+
+    def __ne__(self, other):
+        return 'ne'
+    __hash__ = object.__hash__
+
+
+PA = P()
+PB = P()
+
+
+def scale(x, k=2, *, bias=1):
+    if x > 0:
+        r = x * k
+    else:
+        r = -x * k
+    return (('scale', 1, r + bias, k, bias, G), (PA != PB, CONV('scale')))
+
+
+def scale__alt(x, k=2, *, bias=1):
+    r = 0
+    while x > 0:
+        r = r + k
+        x = x - 1
+    return (('scale', 2, r + bias + 1000, k, bias, G), (PA != PB, CONV('scale__alt')))
+
+
+def helper(x, k=7):
+    if x > 0:
+        v = x + k
+    else:
+        v = -k
+    return (('helper', 1, v, k, G), (PA != PB, CONV('helper')))
+
+
+def helper__alt(x, k=7):
+    v = k
+    for i in range(3):
+        if x > i:
+            v = v + 100
+    return (('helper', 2, v, k, G), (PA != PB, CONV('helper__alt')))
+
+
+def caller(x):
+    h = helper(x)
+    return (('caller',) + h[0], (CONV('caller'),) + h[1])
+
+
+def make(n):
+    def add(x, d=0):
+        if x > 0:
+            v = x + n + d
+        else:
+            v = n + d
+        return (('add', 1, v, d, n, G), (PA != PB, CONV('add')))
+
+    def add__alt(x, d=0):
+        v = n
+        while x > 0:
+            v = v + d + 1
+            x = x - 1
+        return (('add', 2, v, d, n, G), (PA != PB, CONV('add__alt')))
+    return add, add__alt
+
+
+class Holder(object):
+    def m(self, x, k=3):
+        if x > 0:
+            v = x * k
+        else:
+            v = k
+        return (('m', 1, v, k, G), (PA != PB, CONV('m')))
+
+    def m__alt(self, x, k=3):
+        v = 0
+        while x > 0:
+            v = v + k
+            x = x - 1
+        return (('m', 2, v + 500, k, G), (PA != PB, CONV('m__alt')))
+"""
+OPTS = [dict(recursive=True, feat=None), dict(recursive=True, feat='EQUALITY_OPERATORS'), dict(recursive=False, feat=None)]
+XS = (3, -2)
+
+
+def feat(o):
+    f = OPTS[o]['feat']
+    return None if f is None else F[f]
+
+
+class Run(object):
+    def __init__(self, d, tag):
+        path = os.path.join(d, 'c10_mut_%s.py' % tag)
+        with open(path, 'w') as f:
+            f.write(POOL)
+        spec = importlib.util.spec_from_file_location('c10_mut_%s' % tag, path)
+        self.mod = mod = importlib.util.module_from_spec(spec)
+        sys.modules[spec.name] = mod
+        spec.loader.exec_module(mod)
+        a0, a0alt = mod.make(1)
+        a1, a1alt = mod.make(100)
+        self.fns = {'scale': mod.scale, 'helper': mod.helper, 'add0': a0, 'add1': a1, 'm': mod.Holder.m,
+                    'caller': mod.caller}
+        self.alt = {'scale': mod.scale__alt.__code__, 'helper': mod.helper__alt.__code__, 'add0': a0alt.__code__,
+                    'add1': a1alt.__code__, 'm': mod.Holder.m__alt.__code__}
+        self.orig = dict((k, v.__code__) for k, v in self.fns.items())
+        self.holder = mod.Holder()
+        self.wrappers = {}
+
+    def mutate(self, target, what, value):
+        fn = self.fns[target]
+        if what == 'defaults':
+            fn.__defaults__ = tuple(value)
+        elif what == 'kwdefaults':
+            fn.__kwdefaults__ = dict(value)
+        elif what == 'code':
+            fn.__code__ = self.alt[target] if value == 'alt' else self.orig[target]
+        elif what == 'cell':
+            fn.__closure__[0].cell_contents = value
+        elif what == 'global':
+            self.mod.G = value
+        else:
+            raise ValueError(what)
+
+    def callee(self, target):
+        """what user code would call"""
+        return self.holder.m if target == 'm' else self.fns[target]
+
+    def request(self, entry, target, o):
+        if entry in ('via_caller', 'via_convert_caller'):
+            target = 'caller'
+        f = self.callee(target)
+        src = ''
+        if entry in ('to_graph', 'via_caller'):
+            g = api.to_graph(f, recursive=OPTS[o]['recursive'], experimental_optional_features=feat(o))
+            got = [g(self.holder, x) if target == 'm' else g(x) for x in XS]
+            try:
+                with open(g.ag_module.__file__) as fh:
+                    src = fh.read()
+            except Exception as ex:
+                src = 'no source: %s' % type(ex).__name__
+        elif entry in ('convert', 'via_convert_caller'):
+            key = (target, o)
+            if key not in self.wrappers:
+                self.wrappers[key] = api.convert(recursive=OPTS[o]['recursive'], optional_features=feat(o))(self.fns[target])
+            w = self.wrappers[key]
+            got = [w(self.holder, x) if target == 'm' else w(x) for x in XS]
+        elif entry == 'converted_call':
+            opts = converter.ConversionOptions(recursive=OPTS[o]['recursive'], user_requested=True, optional_features=feat(o))
+            got = [api.converted_call(f, (x,), None, options=opts) for x in XS]
+        else:
+            raise ValueError(entry)
+        return got, src
+
+    def step_req(self, entry, target, o, nthreads):
+        res = [None] * nthreads
+        tgt = 'caller' if entry in ('via_caller', 'via_convert_caller') else target
+
+        def work(i):
+            try:
+                got, src = self.request(entry, target, o)
+            except Exception as ex:
+                got, src = 'raised %s: %s' % (type(ex).__name__, str(ex)[:200]), ''
+            try:
+                direct = [self.callee(tgt)(x) for x in XS]
+            except Exception as ex:
+                direct = 'raised %s: %s' % (type(ex).__name__, str(ex)[:200])
+            res[i] = {'got': got, 'direct': direct, 'src': src}
+        if nthreads == 1:
+            work(0)
+        else:
+            ths = [threading.Thread(target=work, args=(i,)) for i in range(nthreads)]
+            for t in ths:
+                t.start()
+            for t in ths:
+                t.join()
+        return res
+
+
+def main():
+    runs = json.loads(sys.argv[1]) if not sys.argv[1].startswith('@') else json.load(open(sys.argv[1][1:]))
+    d = sys.argv[2]
+    out = []
+    for tag, steps in runs:
+        try:
+            r = Run(d, tag)
+            obs = []
+            for st in steps:
+                if st[0] == 'mut':
+                    r.mutate(st[1], st[2], st[3])
+                else:
+                    obs.append(r.step_req(st[1], st[2], st[3], st[4]))
+            out.append(obs)
+        except Exception as ex:
+            out.append('crashed %s: %s' % (type(ex).__name__, str(ex)[:300]))
+    print('RESULT ' + json.dumps(out))
+
+
+main()
+'''
+
+MUT_OPT_TXT = ['recursive=True', 'recursive=True, optional features=Feature.EQUALITY_OPERATORS', 'recursive=False']
+MUT_RECURSIVE = [True, True, False]
+MUT_FEATURE = [False, True, False]
+MUT_TARGETS = ['scale', 'helper', 'add0', 'add1', 'm']
+MUT_FID = {'scale': 0, 'helper': 1, 'add0': 2, 'add1': 3, 'm': 4, 'caller': 5}
+MUT_FAMILY = {'scale': 'scale', 'helper': 'helper', 'add0': 'add', 'add1': 'add', 'm': 'm', 'caller': 'caller'}
+MUT_WHAT_TXT = {'defaults': '__defaults__', 'kwdefaults': '__kwdefaults__', 'code': '__code__ (definition replaced in place)',
+                'cell': 'the contents of its closure cell', 'global': 'a global it reads'}
+# what can be rebound on which object, with the values used
+MUT_CHOICES = {
+    'scale': [('defaults', [5]), ('defaults', [11]), ('kwdefaults', {'bias': 40}), ('code', 'alt'), ('code', 'orig'), ('global', 7)],
+    'helper': [('defaults', [9]), ('code', 'alt'), ('code', 'orig'), ('global', 7)],
+    'add0': [('defaults', [4]), ('code', 'alt'), ('code', 'orig'), ('cell', 55), ('global', 7)],
+    'add1': [('defaults', [4]), ('code', 'alt'), ('code', 'orig'), ('cell', 66), ('global', 7)],
+    'm': [('defaults', [8]), ('code', 'alt'), ('code', 'orig'), ('global', 7)],
+}
+MUT_ENTRIES = {'scale': ['to_graph', 'convert', 'converted_call'], 'add0': ['to_graph', 'convert', 'converted_call'],
+               'add1': ['to_graph', 'convert', 'converted_call'], 'm': ['to_graph', 'convert', 'converted_call'],
+               'helper': ['to_graph', 'convert', 'converted_call', 'via_caller', 'via_convert_caller']}
+
+
+class MutState(object):
+    """The attributes the function objects of one run of MUT_SCRIPT have NOW (a
+    mirror kept by the harness: what a fresh conversion must reflect), and
+    their numbering for the entry-layer machine."""
+
+    def __init__(self, reg):
+        self.reg = reg                       # shared registries: {'code': {}, 'env': {}}
+        self.ver = dict((t, 1) for t in MUT_FID)
+        self.defaults = {'scale': (2,), 'helper': (7,), 'add0': (0,), 'add1': (0,), 'm': (3,), 'caller': ()}
+        self.kw = {'scale': 1}
+        self.cell = {'add0': 1, 'add1': 100}
+        self.G = 100
+
+    def apply(self, target, what, value):
+        if what == 'defaults':
+            self.defaults[target] = tuple(value)
+        elif what == 'kwdefaults':
+            self.kw[target] = value['bias']
+        elif what == 'code':
+            self.ver[target] = 2 if value == 'alt' else 1
+        elif what == 'cell':
+            self.cell[target] = value
+        elif what == 'global':
+            self.G = value
+
+    def _id(self, which, key):
+        d = self.reg[which]
+        if key not in d:
+            d[key] = len(d) + 1
+        return d[key]
+
+    def code_id(self, family, ver):
+        return self._id('code', (family, ver))
+
+    def env_id(self, defaults, kw, cells_of):
+        """env = what instantiate BINDS per request: the defaults, the kwdefaults and WHICH closure cells / globals
+        dict (those of which object) -- not the contents of the cells and of the globals, which every served function
+        shares by reference with the source function (rebinding those is judged by the CPython comparison only)."""
+        return self._id('env', (tuple(defaults), kw, cells_of))
+
+    def attrs(self, t):
+        return (self.code_id(MUT_FAMILY[t], self.ver[t]),
+                self.env_id(self.defaults[t], self.kw.get(t), t if t in self.cell else None))
+
+    def cell_owner(self, n):
+        own = [t for t, v in self.cell.items() if v == n]
+        return own[0] if len(own) == 1 else 'unknown cell'
+
+    def decode(self, t, core):
+        """(code class, env) a served function shows in its behaviour"""
+        try:
+            if t == 'scale':
+                _, ver, _, k, bias, g = core
+                return (self.code_id('scale', ver), self.env_id((k,), bias, None))
+            if t == 'helper':
+                _, ver, _, k, g = core
+                return (self.code_id('helper', ver), self.env_id((k,), None, None))
+            if t in ('add0', 'add1'):
+                _, ver, _, d, n, g = core
+                return (self.code_id('add', ver), self.env_id((d,), None, self.cell_owner(n)))
+            if t == 'm':
+                _, ver, _, k, g = core
+                return (self.code_id('m', ver), self.env_id((k,), None, None))
+            if t == 'caller':
+                return (self.code_id('caller', 1), self.env_id((), None, None))
+        except Exception:   # noqa
+            pass
+        return (999, 999)
+
+
+def mut_describe(hist):
+    out = []
+    for st in hist:
+        if st[0] == 'mut':
+            _, t, what, v = st
+            if what == 'global':
+                out.append('module.G = %r   (a global every function of the pool reads)' % v)
+            elif what == 'code':
+                out.append('%s.__code__ = %s.__code__   (definition replaced in place, as a hot reloader does)' % (
+                    t, (t.rstrip('01') if t.startswith('add') else t) + ('__alt' if v == 'alt' else ' [its original]')))
+            elif what == 'cell':
+                out.append('%s.__closure__[0].cell_contents = %r' % (t, v))
+            else:
+                out.append('%s.%s = %r' % (t, MUT_WHAT_TXT[what], tuple(v) if what == 'defaults' else v))
+        else:
+            _, entry, t, o, n = st
+            how = {'to_graph': 'g = api.to_graph(%s, %s); g(3), g(-2)' % (t, MUT_OPT_TXT[o]),
+                   'convert': 'w = api.convert(%s)(%s) [wrapper made once, reused]; w(3), w(-2)' % (MUT_OPT_TXT[o], t),
+                   'converted_call': 'api.converted_call(%s, (x,), None, options=ConversionOptions(%s, user_requested=True)) for x in (3, -2)' % (t, MUT_OPT_TXT[o]),
+                   'via_caller': 'g = api.to_graph(caller, %s); g(3), g(-2)   [caller calls %s: nested converted_call]' % (MUT_OPT_TXT[o], t),
+                   'via_convert_caller': 'w = api.convert(%s)(caller) [made once, reused]; w(3), w(-2)   [caller calls %s]' % (MUT_OPT_TXT[o], t)}[entry]
+            out.append(('%d threads at once: ' % n if n > 1 else '') + how)
+    return out
+
+
+def mut_core(v):
+    return [x[0] for x in v] if isinstance(v, list) else v
+
+
+def mut_histories_for(rnd, thorough):
+    hists = []
+    # systematic: ask, rebind in place, ask again -- every kind of rebinding x every entry point
+    for t in MUT_TARGETS:
+        for what, val in MUT_CHOICES[t]:
+            if what == 'code' and val == 'orig':
+                continue
+            if (what, val) == ('defaults', [11]):
+                continue
+            for entry in MUT_ENTRIES[t]:
+                hists.append([['req', entry, t, 0, 1], ['mut', t, what, val], ['req', entry, t, 0, 1]])
+    # the same object under the three option sets, then the first again (no rebinding)
+    for t in MUT_TARGETS:
+        for entry in ('to_graph', 'converted_call'):
+            hists.append([['req', entry, t, 0, 1], ['req', entry, t, 1, 1], ['req', entry, t, 2, 1], ['req', entry, t, 0, 1]])
+    # replaced and restored; two entry points sharing the funnel; sibling closures
+    hists.append([['req', 'to_graph', 'scale', 0, 1], ['mut', 'scale', 'code', 'alt'], ['req', 'to_graph', 'scale', 0, 1],
+                  ['mut', 'scale', 'code', 'orig'], ['req', 'to_graph', 'scale', 0, 3]])
+    hists.append([['req', 'convert', 'helper', 0, 1], ['mut', 'helper', 'defaults', [9]], ['req', 'via_caller', 'helper', 0, 1],
+                  ['mut', 'helper', 'code', 'alt'], ['req', 'via_convert_caller', 'helper', 0, 1], ['req', 'converted_call', 'helper', 0, 2]])
+    hists.append([['req', 'to_graph', 'add0', 0, 1], ['req', 'to_graph', 'add1', 0, 1], ['mut', 'add1', 'defaults', [4]],
+                  ['req', 'to_graph', 'add1', 0, 1], ['req', 'to_graph', 'add0', 0, 1], ['mut', 'add0', 'code', 'alt'],
+                  ['req', 'converted_call', 'add1', 0, 1], ['req', 'converted_call', 'add0', 0, 1]])
+    for _ in range(150 if thorough else 14):
+        h = []
+        pool = rnd.sample(MUT_TARGETS, rnd.randint(1, 2))
+        for _ in range(rnd.randint(3, 9)):
+            t = rnd.choice(pool)
+            if h and rnd.random() < 0.4:
+                what, val = rnd.choice(MUT_CHOICES[t])
+                h.append(['mut', t, what, val])
+            else:
+                h.append(['req', rnd.choice(MUT_ENTRIES[t]), t, rnd.choice([0, 0, 0, 1, 2]), rnd.choice([1, 1, 1, 3])])
+        if not any(st[0] == 'req' for st in h):
+            h.append(['req', 'to_graph', pool[0], 0, 1])
+        hists.append(h)
+    return hists
+
+
+def mut_run_batches(tmp, script, runs, tagbase, chunk=16):
+    """runs: list of step lists -> list of results (one per run), several runs per process, each run on its own
+    freshly written module file (distinct code objects, distinct function objects)."""
+    from concurrent.futures import ThreadPoolExecutor
+    chunks = [runs[i:i + chunk] for i in range(0, len(runs), chunk)]
+
+    def proc(ic):
+        i, ch = ic
+        d = vlib.ensure_dir(os.path.join(tmp, '%s_%d' % (tagbase, i)))
+        arg = os.path.join(d, 'runs.json')
+        with open(arg, 'w') as f:
+            json.dump([['%s%d_%d' % (tagbase, i, j), steps] for j, steps in enumerate(ch)], f)
+        rc, out = vlib.sh([vlib.PY, script, '@' + arg, d], timeout=600, env=vlib.repo_env({'TMPDIR': tmp}))
+        m = re.search(r'^RESULT (.*)$', out, re.M)
+        if not m:
+            return ['crashed: ' + out[-600:]] * len(ch)
+        return json.loads(m.group(1))
+    res = []
+    with ThreadPoolExecutor(max_workers=6) as ex:
+        for r in ex.map(proc, enumerate(chunks)):
+            res.extend(r)
+    return res
+
+
+def mut_pristine(hist, idx):
+    """The request #idx of the history as the ONLY request: same rebindings, no earlier request."""
+    st = hist[idx]
+    return [s for s in hist[:idx] if s[0] == 'mut'] + [[st[0], st[1], st[2], st[3], 1]]
+
+
+def mut_src_norm(src):
+    return re.sub(r'c10_mut_\w+', 'c10_mut', src or '')
+
+
+def mut_judge(hist, res, refs):
+    """-> None | (title, failing step index, detail dict).  Every answer is compared with the function object itself,
+    run by CPython now (the attributes it has NOW), and with the same request made as the only request of a fresh
+    process-local world (same rebindings, no earlier request)."""
+    if isinstance(res, str):
+        return ('an in-place rebinding history crashed', 0, {'output': res})
+    ri = 0
+    last_mut = {}
+    nreq = 0
+    for idx, st in enumerate(hist):
+        if st[0] == 'mut':
+            last_mut[st[1] if st[2] != 'global' else '*'] = (idx, st[2])
+            continue
+        _, entry, t, o, n = st
+        obs = res[ri]
+        ri += 1
+        nreq += 1
+        ref = refs.get(json.dumps(mut_pristine(hist, idx))) if nreq > 1 else None
+        for th, ob in enumerate(obs):
+            got, direct = ob['got'], ob['direct']
+            changed = [w for k, (i, w) in last_mut.items() if k in (t, '*')]
+            if isinstance(got, str) and not isinstance(direct, str):
+                return ('a conversion request died of ' + got[7:].split(':')[0], idx, {'thread': th, 'raised': got})
+            if mut_core(got) != mut_core(direct):
+                if changed and nreq > 1:
+                    what = ('a function object rebound in place (%s) between two requests is served the conversion made for it '
+                            'before the change' % ' / '.join(sorted(set(MUT_WHAT_TXT[w] for w in changed))))
+                else:
+                    what = 'a request is served a function that does not behave like the requested function object'
+                return (what, idx, {'thread': th, 'served function returned (x=3, x=-2)': repr(mut_core(got)),
+                                    'the function object itself, called by CPython at that moment': repr(mut_core(direct))})
+            if ref is not None and not isinstance(ref, str):
+                r0 = ref[0][0]
+                if got != r0['got'] or mut_src_norm(ob['src']) != mut_src_norm(r0['src']):
+                    dl = [(a.strip(), b.strip()) for a, b in zip(mut_src_norm(ob['src']).split('\n'),
+                                                                   mut_src_norm(r0['src']).split('\n')) if a != b][:3]
+                    what = ('a request differs from the same request made first (same function object state, same options): '
+                            'it depends on what was requested before')
+                    return (what, idx, {'thread': th, 'in the history (values, [`!=` uses, runs converted])': repr(got),
+                                        'as only request': repr(r0['got']), 'generated source lines (history, alone)': dl})
+    return None
+
+
+def mut_model_case(idx, hist, res, reg):
+    """The history as operations of the entry-layer machine + the rows observed on the real code."""
+    ms = MutState(reg)
+    ops = []
+    rows = []
+    cur = {}
+    for t in sorted(MUT_FID, key=MUT_FID.get):
+        cur[t] = ms.attrs(t)
+        ops.append('HMut %d %d %d' % ((MUT_FID[t],) + cur[t]))
+    ri = 0
+    for st in hist:
+        if st[0] == 'mut':
+            ms.apply(st[1], st[2], st[3])
+            for t in sorted(MUT_FID, key=MUT_FID.get):
+                a = ms.attrs(t)
+                if a != cur[t]:
+                    cur[t] = a
+                    ops.append('HMut %d %d %d' % ((MUT_FID[t],) + a))
+            continue
+        _, entry, t, o, n = st
+        obs = res[ri]
+        ri += 1
+        for th, ob in enumerate(obs):
+            got = ob['got']
+            if isinstance(got, str):
+                return None
+
+            def row(target, oid, core, marks):
+                c, e = ms.decode(target, core)
+                feature_seen = marks[0] is True
+                oo = oid if feature_seen == MUT_FEATURE[oid % 10] else 900
+                rows.append('(%d, %d, %d, %d, %d)' % (MUT_FID[target], oid, c, oo, e))
+                ops.append('HReq %d %d %d' % (th, MUT_FID[target], oid))
+            if entry in ('via_caller', 'via_convert_caller'):
+                per_call = entry == 'via_convert_caller'
+                for xi, (core, marks) in enumerate(got):
+                    if per_call or xi == 0:
+                        row('caller', o, ['caller', core[-1]], [marks[1]])
+                    if MUT_RECURSIVE[o]:
+                        row('helper', o + 10, core[1:], marks[1:])
+            elif entry == 'to_graph':
+                if ms.decode(t, got[0][0]) != ms.decode(t, got[1][0]):
+                    return None
+                row(t, o, got[0][0], got[0][1])
+            else:
+                for core, marks in got:
+                    row(t, o, core, marks)
+    return '(%d, [%s], [%s])' % (idx, '; '.join(ops), '; '.join(rows))
+
+
+def mutation_histories(run, rnd, tmp, thorough, tie_ok, funnel, only_hist=None):
+    """Histories of requests through the PUBLIC entry points (to_graph, a reused
+    convert wrapper, converted_call, a converted caller that calls the object)
+    for function objects that are REBOUND IN PLACE between the requests:
+    __defaults__, __kwdefaults__, __code__ (hot-reload style), the contents of
+    a closure cell, a global -- and the same object under several option sets.
+    Each history runs in a fresh process on freshly written module files; every
+    answer is judged against the function object itself (CPython, at that
+    moment) and against the same request made as the only one; the histories
+    are also the cases of the entry-layer machine (MV.Cache.Entry, evaluated in
+    Coq with the GENERATED funnel)."""
+    failures = []
+    script = os.path.join(tmp, 'c10_mut.py')
+    with open(script, 'w') as f:
+        f.write(MUT_SCRIPT)
+    hists = [only_hist] if only_hist is not None else mut_histories_for(rnd, thorough)
+    ref_runs = {}
+    for h in hists:
+        first = True
+        for idx, st in enumerate(h):
+            if st[0] == 'req':
+                if not first:
+                    p = mut_pristine(h, idx)
+                    ref_runs[json.dumps(p)] = p
+                first = False
+    keys = sorted(ref_runs)
+    results = mut_run_batches(tmp, script, hists, 'h')
+    ref_results = mut_run_batches(tmp, script, [ref_runs[k] for k in keys], 'r')
+    refs = dict(zip(keys, ref_results))
+    if only_hist is not None:
+        return mut_judge(only_hist, results[0], refs), results[0]
+    cases = []
+    reg = {'code': {}, 'env': {}}
+    for i, (h, res) in enumerate(zip(hists, results)):
+        nreq = sum(st[4] for st in h if st[0] == 'req')
+        run.count(nreq)
+        if not isinstance(res, str):
+            run.nontriv(('mutation', json.dumps([[ob['got'] for ob in step] for step in res])))
+        bad = mut_judge(h, res, refs) if len(failures) < 4 else None
+        if bad and bad[0] in [f[0] for f in failures]:
+            bad = None          # one replay per kind of failure
+        if bad:
+            what, idx, detail = bad
+            rep = {'what': what, 'kind': 'mutation-history', 'history (fresh process, pool = MUT_SCRIPT of tools/props/c10.py)': mut_describe(h),
+                   'history_raw': h, 'failing_step_index': idx, 'failing_step': mut_describe([h[idx]])[0],
+                   'entry_funnel_translated_from_api._convert_actual': funnel}
+            rep.update(detail)
+            failures.append((what, rep, None))
+        if not isinstance(res, str):
+            c = mut_model_case(i, h, res, reg)
+            if c:
+                cases.append(c)
+    run.extra['mutation_histories'] = len(hists)
+    run.sample({'in_place_rebinding_history': mut_describe(hists[0])})
+    corr = None
+    if tie_ok and cases:
+        from concurrent.futures import ThreadPoolExecutor
+        shards = [cases[k:k + 60] for k in range(0, len(cases), 60)]
+
+        def ev(ic):
+            body = ['From Coq Require Import List Arith Bool.', 'Import ListNotations.',
+                    'Require Import MV.Cache.Machine MV.Cache.KeySrc MV.Cache.Entry MV.Generated.C10_gen MV.Cache.EntryCheck.',
+                    'Definition cases : list hcase := [', ';\n'.join(ic[1]), '].',
+                    'Eval vm_compute in (hfailing entry_funnel transform_function_prog cases).']
+            rc, out = vlib.coq_eval('C10', 'entry%d' % ic[0], '\n'.join(body), timeout=600)
+            return vlib.parse_coq_list_of_nat(out) if rc == 0 else ('entry-layer machine evaluation failed: ' + out[-500:])
+        bad = []
+        with ThreadPoolExecutor(max_workers=4) as ex:
+            for b in ex.map(ev, enumerate(shards)):
+                if isinstance(b, str) or b is None:
+                    corr = b or 'entry-layer machine evaluation failed'
+                    break
+                bad += b
+        if corr is None and bad:
+            corr = 'entry-layer machine (funnel %s) and the real entry points disagree on histories %s, e.g. %s / case %s' % (
+                funnel, bad[:5], mut_describe(hists[bad[0]]), [c for c in cases if c.startswith('(%d,' % bad[0])][:1])
+        elif corr is None:
+            run.extra['entry_layer_histories_validated_against_impl'] = len(cases)
+        if corr:
+            run.extra['entry_layer_correspondence_broken'] = corr[:3000]
+    return failures, corr
+
+
+
 def malt_oracle(run, rnd, tmp, MT, thorough):
     """The real transpiler: options are ConversionOptions values, the reference
     is a conversion by a fresh (empty-cache) transpiler and the original
@@ -2464,6 +3072,17 @@ def replay(path):
                         rc = 1
             print('REPRODUCED' if rc else 'not reproduced')
             return rc
+        if kind == 'mutation-history' and rep.get('history_raw'):
+            bad, res = mutation_histories(None, None, tmp, False, False, None, only_hist=rep['history_raw'])
+            for line in mut_describe(rep['history_raw']):
+                print('   ', line)
+            if not isinstance(res, str):
+                for step in res:
+                    for ob in step:
+                        print('served function returned %r ; the function object itself (CPython) %r' % (
+                            mut_core(ob['got']), mut_core(ob['direct'])))
+            print('REPRODUCED: %s (step #%d: %s)' % (bad[0], bad[1], json.dumps(bad[2])[:1200]) if bad else 'not reproduced')
+            return 1 if bad else 0
         if kind == 'allowlist-history':
             hist = [tuple(x) for x in rep['history_raw']]
             bad, obs = allowlist_histories(None, None, tmp, False, False, only_hist=hist)
